@@ -2,6 +2,7 @@ import PybropsModel.Drv.C01
 import PybropsModel.Drv.C02
 import PybropsModel.Drv.C11
 import PybropsModel.Drv.C13
+import PybropsModel.Drv.C14
 import PybropsModel.Drv.C19
 import PybropsModel.Drv.C20
 
@@ -11,6 +12,7 @@ def allOps : List (String × J.Op) := List.flatten [
   Drv.C02.ops,
   Drv.C11.ops,
   Drv.C13.ops,
+  Drv.C14.ops,
   Drv.C19.ops,
   Drv.C20.ops
 ]
